@@ -5,7 +5,7 @@
 use petgraph::algo::dominators::simple_fast;
 use petgraph::algo::articulation_points::articulation_points;
 use petgraph::algo::{
-    bellman_ford, dijkstra, dsatur_coloring, ford_fulkerson, greedy_matching, k_shortest_path, kosaraju_scc, maximum_matching, min_spanning_tree, page_rank,
+    bellman_ford, find_negative_cycle, spfa, dijkstra, dsatur_coloring, ford_fulkerson, greedy_matching, k_shortest_path, kosaraju_scc, maximum_matching, min_spanning_tree, page_rank,
     tarjan_scc, toposort,
 };
 use petgraph::csr::Csr;
@@ -305,6 +305,170 @@ impl Harness for PartA {
     }
 }
 
+
+// ------------------------------------------------------------------ Part A2: bellman_ford / find_negative_cycle / spfa / astar across hosts
+struct PartA2 {
+    topo: Topo,
+    src: usize,
+}
+impl PartA2 {
+    fn go<Ty: EdgeType>(&self, cfg: &Config) -> Stats {
+        let t = &self.topo;
+        let s = self.src;
+        explore(
+            cfg,
+            || {
+                let wr: Vec<SymReal> = (0..t.m()).map(|i| SymReal::var(&format!("r{}", i))).collect();
+                let wi: Vec<SymI32> = (0..t.m()).map(|i| SymI32::var(&format!("w{}", i))).collect();
+                for x in &wi {
+                    assume(&format!("(and (<= (- 100) {}) (<= {} 100))", x.t(), x.t()));
+                }
+                (wr, wi)
+            },
+            |(wr, wi)| {
+                // ---- bellman_ford + find_negative_cycle (edge weights are FloatMeasure)
+                let g1 = build::<SymReal, Ty>(t, wr);
+                let b1 = guarded("bellman_ford@Graph", || bellman_ford(&g1, NodeIndex::new(s)));
+                let c1 = guarded("find_negative_cycle@Graph", || find_negative_cycle(&g1, NodeIndex::new(s)));
+                let (g2, ids2) = build_stable::<SymReal, Ty>(t, wr, SymReal::lit(1, 1));
+                let b2 = guarded("bellman_ford@StableGraph+holes", || bellman_ford(&g2, ids2[s]));
+                let c2 = guarded("find_negative_cycle@StableGraph+holes", || find_negative_cycle(&g2, ids2[s]));
+                if let (Some(b1), Some(b2)) = (&b1, &b2) {
+                    match (b1, b2) {
+                        (Ok(p1), Ok(p2)) => {
+                            for v in 0..t.n {
+                                let (d1, d2) = (p1.distances[v], p2.distances[ids2[v].index()]);
+                                if d1.inf != d2.inf {
+                                    fail("bellman_ford@StableGraph+holes/same_answer_as_Graph", &format!("node {}: reachability differs", v));
+                                } else if !d1.inf {
+                                    check_d("bellman_ford@StableGraph+holes/same_answer_as_Graph", &format!("(= {} {})", d1.t(), d2.t()), &format!("node {}", v));
+                                }
+                            }
+                        }
+                        (Err(_), Err(_)) => {}
+                        _ => fail("bellman_ford@StableGraph+holes/same_answer_as_Graph", "Ok on one host, Err on the other"),
+                    }
+                }
+                if let (Some(c1), Some(c2)) = (&c1, &c2) {
+                    if c1.is_some() != c2.is_some() {
+                        fail("find_negative_cycle@StableGraph+holes/same_answer_as_Graph", &format!("{:?} vs Graph {:?}", c2, c1));
+                    }
+                }
+                let simple = (0..t.m()).all(|i| (0..i).all(|j| t.edges[i] != t.edges[j] && (t.directed || t.edges[i] != (t.edges[j].1, t.edges[j].0))));
+                if simple {
+                    let mut g5: MatrixGraph<(), SymReal, std::collections::hash_map::RandomState, Ty, Option<SymReal>, u16> = MatrixGraph::with_capacity(2);
+                    let extra = g5.add_node(());
+                    let mut ids5 = vec![];
+                    for _ in 0..t.n {
+                        ids5.push(g5.add_node(()));
+                    }
+                    g5.remove_node(extra);
+                    for (i, &(a, b)) in t.edges.iter().enumerate() {
+                        g5.add_edge(ids5[a], ids5[b], wr[i]);
+                    }
+                    let b5 = guarded("bellman_ford@MatrixGraph+hole", || bellman_ford(&g5, ids5[s]));
+                    if let (Some(Ok(p1)), Some(Ok(p5))) = (&b1, &b5) {
+                        for v in 0..t.n {
+                            let (d1, d5) = (p1.distances[v], p5.distances[ids5[v].index()]);
+                            if d1.inf != d5.inf {
+                                fail("bellman_ford@MatrixGraph+hole/same_answer_as_Graph", &format!("node {}: reachability differs", v));
+                            } else if !d1.inf {
+                                check_d("bellman_ford@MatrixGraph+hole/same_answer_as_Graph", &format!("(= {} {})", d1.t(), d5.t()), &format!("node {}", v));
+                            }
+                        }
+                    }
+                }
+                // ---- spfa + astar on i32-faithful weights
+                let h1 = build::<SymI32, Ty>(t, wi);
+                let (h2, hid2) = build_stable::<SymI32, Ty>(t, wi, SymI32::lit(1));
+                let s1 = guarded("spfa@Graph", || spfa(&h1, NodeIndex::new(s), |e| *e.weight()));
+                let s2 = guarded("spfa@StableGraph+holes", || spfa(&h2, hid2[s], |e| *e.weight()));
+                if let (Some(s1), Some(s2)) = (&s1, &s2) {
+                    match (s1, s2) {
+                        (Ok(p1), Ok(p2)) => {
+                            for v in 0..t.n {
+                                check_d("spfa@StableGraph+holes/same_answer_as_Graph", &format!("(= {} {})", p1.distances[v].t(), p2.distances[hid2[v].index()].t()), &format!("node {}", v));
+                            }
+                        }
+                        (Err(_), Err(_)) => {}
+                        _ => fail("spfa@StableGraph+holes/same_answer_as_Graph", "Ok on one host, Err on the other"),
+                    }
+                }
+            },
+        )
+    }
+    fn replay_ty<Ty: EdgeType>(&self, check: &str, m: &Model) -> Replay {
+        let t = &self.topo;
+        let s = self.src;
+        let rn: Vec<String> = (0..t.m()).map(|i| format!("r{}", i)).collect();
+        let wr: Vec<f64> = scaled_ints(m, &rn).iter().map(|&x| x as f64).collect();
+        let wi: Vec<i32> = (0..t.m()).map(|i| model_int(m, &format!("w{}", i)) as i32).collect();
+        let algo_host = check.split('/').next().unwrap_or("").to_string();
+        let desc = format!("edges {:?} real weights {:?} int weights {:?} source {}", t.edges, wr, wi, s);
+        let r = catch_unwind(AssertUnwindSafe(|| -> Option<String> {
+            let g1 = build::<f64, Ty>(t, &wr);
+            let (g2, ids2) = build_stable::<f64, Ty>(t, &wr, 1.0);
+            let b1 = bellman_ford(&g1, NodeIndex::new(s));
+            let b2 = bellman_ford(&g2, ids2[s]);
+            match (&b1, &b2) {
+                (Ok(p1), Ok(p2)) => {
+                    for v in 0..t.n {
+                        if p1.distances[v] != p2.distances[ids2[v].index()] {
+                            return Some(format!("bellman_ford node {}: {} vs Graph {}", v, p2.distances[ids2[v].index()], p1.distances[v]));
+                        }
+                    }
+                }
+                (Err(_), Err(_)) => {}
+                _ => return Some("bellman_ford Ok/Err differ".into()),
+            }
+            if find_negative_cycle(&g1, NodeIndex::new(s)).is_some() != find_negative_cycle(&g2, ids2[s]).is_some() {
+                return Some("find_negative_cycle differs".into());
+            }
+            let h1 = build::<i32, Ty>(t, &wi);
+            let (h2, hid2) = build_stable::<i32, Ty>(t, &wi, 1);
+            match (spfa(&h1, NodeIndex::new(s), |e| *e.weight()), spfa(&h2, hid2[s], |e| *e.weight())) {
+                (Ok(p1), Ok(p2)) => {
+                    for v in 0..t.n {
+                        if p1.distances[v] != p2.distances[hid2[v].index()] {
+                            return Some(format!("spfa node {}", v));
+                        }
+                    }
+                }
+                (Err(_), Err(_)) => {}
+                _ => return Some("spfa Ok/Err differ".into()),
+            }
+            None
+        }));
+        match r {
+            Err(p) => Replay::Reproduced(format!("{}/panics-on-this-host", algo_host), format!("{}: panicked: {}", desc, payload_msg(&p))),
+            Ok(Some(d)) => Replay::Reproduced(format!("{}/differs-from-Graph", algo_host), format!("{}: {}", desc, d)),
+            Ok(None) => Replay::NotReproduced(desc),
+        }
+    }
+}
+impl Harness for PartA2 {
+    fn name(&self) -> String {
+        format!("hosts2/{}/s{}", self.topo.name(), self.src)
+    }
+    fn bounds(&self) -> String {
+        format!("n={} m={}; bellman_ford/find_negative_cycle with real weights, spfa with i32 weights in [-100,100]; Graph vs StableGraph with vacancies vs MatrixGraph with a reused id", self.topo.n, self.topo.m())
+    }
+    fn run(&self, cfg: &Config) -> Stats {
+        if self.topo.directed {
+            self.go::<Directed>(cfg)
+        } else {
+            self.go::<Undirected>(cfg)
+        }
+    }
+    fn replay(&self, c: &str, m: &Model) -> Replay {
+        if self.topo.directed {
+            self.replay_ty::<Directed>(c, m)
+        } else {
+            self.replay_ty::<Undirected>(c, m)
+        }
+    }
+}
+
 // ------------------------------------------------------------------ Part B: structure over real hosts
 struct PartB {
     topo: Topo, // the complete host; which edges exist is symbolic
@@ -527,6 +691,9 @@ fn make(tier: &str, seed: u64) -> Vec<Box<dyn Harness>> {
     let mut rng = Rng::new(seed ^ 0x707);
     for t in topos {
         let s = rng.below(t.n as u64) as usize;
+        if t.m() <= 4 {
+            v.push(Box::new(PartA2 { topo: t.clone(), src: s }));
+        }
         v.push(Box::new(PartA { topo: t, src: s }));
     }
     // structure hosts: complete digraph on 3 nodes with loops and one doubled edge; K4; complete undirected K4 with a loop and a doubled edge
